@@ -53,7 +53,11 @@ func runScan(c J) J {
 		if delims != nil {
 			eng.Delims(delims[0], delims[1], delims[2], delims[3])
 		}
-		out, err := eng.ParseAndRender([]byte(src), map[string]any{})
+		bind := map[string]any{}
+		if jbool(c, "env1") {
+			bind = map[string]any{"a": []any{1, 2, 3}, "v": "v", "n": 1}
+		}
+		out, err := eng.ParseAndRender([]byte(src), bind)
 		if err != nil {
 			return errResult("render", err, "")
 		}
